@@ -21,6 +21,7 @@ package props
 import (
 	"bytes"
 	"crypto/sha256"
+	"encoding/binary"
 	"encoding/json"
 	"fmt"
 	"math/rand"
@@ -932,6 +933,7 @@ func c03PickSF(s *chain.Sim) (types.SiafundElement, bool) {
 
 // c03Pending: two outputs (and possibly two siafund outputs) paid to ONE address by the block just applied.
 type c03Pending struct {
+	tries int
 	r    *chain.Recipe
 	sc   []types.SiacoinOutputID
 	sf   []types.SiafundOutputID
@@ -942,16 +944,43 @@ type c03Pending struct {
 // fresh wallet address.
 func c03PayTwice(s *chain.Sim, rng *rand.Rand, ts time.Time, miner types.Address) *c03Pending {
 	v2 := s.V2Allowed()
-	kinds := []string{"uc1", "uc2of3"}
+	kinds := []string{"uc1", "uc2of3", "uclock", "uclock", "uc0", "uc2of70", "ucalien"}
 	if v2 {
-		kinds = []string{"pk", "thresh", "hash", "uc1", "uc2of3", "pk", "thresh"}
+		kinds = append(kinds, "pk", "thresh", "hash", "above", "after", "pk", "thresh")
 	}
 	kind := kinds[rng.Intn(len(kinds))]
 	e, ok := c03PickSC(s, v2)
 	if !ok {
 		return nil
 	}
-	r := c03Recipe(s, rng, kind)
+	var r *chain.Recipe
+	switch kind {
+	case "uclock":
+		// one Ed25519 key, 1 of 1, and a timelock (already passed): NOT the standard conditions
+		r = c03Attacker(s, rng)
+		uc := *r.UC
+		uc.Timelock = 1 + uint64(rng.Intn(int(s.Height())+1))
+		if uc.Timelock > s.Height() {
+			uc.Timelock = s.Height()
+		}
+		if uc.Timelock == 0 {
+			uc.Timelock = 1
+		}
+		r = &chain.Recipe{Kind: "uclock", UC: &uc, Keys: r.Keys, UCKeyIdx: r.UCKeyIdx, MinHeight: uc.Timelock}
+		r.Policy = types.SpendPolicy{Type: types.PolicyTypeUnlockConditions(uc)}
+		r.Reveal = r.Policy
+	case "uc0", "uc2of70", "ucalien", "above", "after":
+		r = s.W.NewRecipeKind(kind, s.Height(), ts)
+	default:
+		r = c03Recipe(s, rng, kind)
+	}
+	if r.UC != nil {
+		// the address outputs are paid to is the protocol's (computed here), not whatever core derives
+		core := r.UC.UnlockHash()
+		r.Addr = c03UnlockHash(*r.UC)
+		s.W.Recipes[r.Addr] = r
+		s.W.Recipes[core] = r
+	}
 	half := e.SiacoinOutput.Value.Div64(2)
 	outs := []types.SiacoinOutput{{Value: half, Address: r.Addr}, {Value: e.SiacoinOutput.Value.Sub(half), Address: r.Addr}}
 	pd := &c03Pending{r: r, kind: kind}
@@ -1060,6 +1089,9 @@ func c03SecondInput(s *chain.Sim, rng *rand.Rand, pd *c03Pending, ts time.Time, 
 		return true
 	}
 	whats := []string{"sig-flip", "sig-drop", "sig-surplus", "sig-other-key", "preimage-wrong", "preimage-drop", "preimage-surplus", "opaque", "no-witness"}
+	if pd.kind == "ucalien" || pd.kind == "uc0" {
+		whats = nil // any signature (resp. none) satisfies these conditions: there is no witness to corrupt
+	}
 	if s.V2Allowed() && len(scs) == 2 && s.Spendable(pd.r.Addr, true) {
 		t := types.V2Transaction{SiacoinInputs: []types.V2SiacoinInput{{Parent: scs[0].Copy()}, {Parent: scs[1].Copy()}},
 			SiacoinOutputs: []types.SiacoinOutput{{Value: scs[0].SiacoinOutput.Value.Add(scs[1].SiacoinOutput.Value), Address: sink}}}
@@ -1123,6 +1155,9 @@ func c03SecondInput(s *chain.Sim, rng *rand.Rand, pd *c03Pending, ts time.Time, 
 			}
 			control = append(control, mk("v1-two-inputs-same-conditions-honest", cloneV1(t)))
 			second, first := types.Hash256(scs[1].ID), types.Hash256(scs[0].ID)
+			if pd.kind == "ucalien" || pd.kind == "uc0" {
+				return // any signature (resp. none) satisfies these conditions
+			}
 			{ // the signatures of the second input are dropped
 				c := cloneV1(t)
 				var keep []types.TransactionSignature
@@ -1533,6 +1568,378 @@ func c03PartialCoverage(s *chain.Sim, rng *rand.Rand, ts time.Time, miner types.
 	return out
 }
 
+
+// ---------------------------------------------------------------- the revealed conditions / policy, field by field
+
+// c03UnlockHash: the address of v1 unlock conditions, computed here from the protocol definition (Merkle root of
+// the leaves timelock | key… | signatures required; leaf = H(0x00 ‖ data), node = H(0x01 ‖ l ‖ r)) and NOT with
+// core's UnlockHash: "reveals unlock conditions that hash to the address committed in the parent".
+func c03UnlockHash(uc types.UnlockConditions) types.Address {
+	leaf := func(data []byte) types.Hash256 { return types.HashBytes(append([]byte{0}, data...)) }
+	u64 := func(v uint64) []byte {
+		b := make([]byte, 8)
+		binary.LittleEndian.PutUint64(b, v)
+		return b
+	}
+	leaves := []types.Hash256{leaf(u64(uc.Timelock))}
+	for _, k := range uc.PublicKeys {
+		leaves = append(leaves, leaf(append(append(append([]byte{}, k.Algorithm[:]...), u64(uint64(len(k.Key)))...), k.Key...)))
+	}
+	leaves = append(leaves, leaf(u64(uc.SignaturesRequired)))
+	var root func(l []types.Hash256) types.Hash256
+	root = func(l []types.Hash256) types.Hash256 {
+		if len(l) == 1 {
+			return l[0]
+		}
+		k := 1
+		for k*2 < len(l) {
+			k *= 2
+		}
+		a, b := root(l[:k]), root(l[k:])
+		return types.HashBytes(append(append([]byte{1}, a[:]...), b[:]...))
+	}
+	return types.Address(root(leaves))
+}
+
+type c03UCVariant struct {
+	field string
+	uc    types.UnlockConditions
+}
+
+func c03CopyUC(uc types.UnlockConditions) types.UnlockConditions {
+	out := uc
+	out.PublicKeys = nil
+	for _, k := range uc.PublicKeys {
+		out.PublicKeys = append(out.PublicKeys, types.UnlockKey{Algorithm: k.Algorithm, Key: append([]byte(nil), k.Key...)})
+	}
+	return out
+}
+
+// c03UCVariants: every single-field change of revealed unlock conditions (each has a different value, hence —
+// by the statement — a different address).
+func c03UCVariants(uc types.UnlockConditions, child uint64, rng *rand.Rand, stranger types.PublicKey) []c03UCVariant {
+	var out []c03UCVariant
+	add := func(field string, edit func(u *types.UnlockConditions) bool) {
+		u := c03CopyUC(uc)
+		if edit(&u) && c03UnlockHash(u) != c03UnlockHash(uc) {
+			out = append(out, c03UCVariant{field, u})
+		}
+	}
+	add("Timelock+1", func(u *types.UnlockConditions) bool { u.Timelock++; return true })
+	add("Timelock-1", func(u *types.UnlockConditions) bool { u.Timelock--; return uc.Timelock > 0 })
+	add("Timelock=0", func(u *types.UnlockConditions) bool { u.Timelock = 0; return uc.Timelock != 0 })
+	add("Timelock=passed", func(u *types.UnlockConditions) bool {
+		if child < 2 {
+			return false
+		}
+		u.Timelock = 1 + uint64(rng.Intn(int(child-1)))
+		return u.Timelock != uc.Timelock
+	})
+	add("SignaturesRequired+1", func(u *types.UnlockConditions) bool { u.SignaturesRequired++; return true })
+	add("SignaturesRequired-1", func(u *types.UnlockConditions) bool { u.SignaturesRequired--; return uc.SignaturesRequired > 0 })
+	if len(uc.PublicKeys) > 0 {
+		k := rng.Intn(len(uc.PublicKeys))
+		add("PublicKeys.Algorithm", func(u *types.UnlockConditions) bool {
+			if u.PublicKeys[k].Algorithm == types.SpecifierEd25519 {
+				u.PublicKeys[k].Algorithm = types.NewSpecifier("lamport")
+			} else {
+				u.PublicKeys[k].Algorithm = types.SpecifierEd25519
+			}
+			return true
+		})
+		add("PublicKeys.Key", func(u *types.UnlockConditions) bool {
+			if len(u.PublicKeys[k].Key) == 0 {
+				return false
+			}
+			u.PublicKeys[k].Key[rng.Intn(len(u.PublicKeys[k].Key))] ^= 1 << uint(rng.Intn(8))
+			return true
+		})
+		add("PublicKeys#drop", func(u *types.UnlockConditions) bool {
+			u.PublicKeys = append(u.PublicKeys[:k:k], u.PublicKeys[k+1:]...)
+			return true
+		})
+	}
+	if len(uc.PublicKeys) > 1 {
+		add("PublicKeys#reorder", func(u *types.UnlockConditions) bool {
+			i := rng.Intn(len(u.PublicKeys) - 1)
+			u.PublicKeys[i], u.PublicKeys[i+1] = u.PublicKeys[i+1], u.PublicKeys[i]
+			return true
+		})
+	}
+	add("PublicKeys#append", func(u *types.UnlockConditions) bool {
+		u.PublicKeys = append(u.PublicKeys, types.UnlockKey{Algorithm: types.SpecifierEd25519, Key: stranger[:]})
+		return true
+	})
+	return out
+}
+
+type c03PolicyVariant struct {
+	field  string
+	p      types.SpendPolicy
+	opaque bool // a revealed sub-policy replaced by its opaque form: address-preserving by design
+}
+
+// c03PolicyVariants: every single-field change of a revealed spend policy, recursively through thresholds.
+func c03PolicyVariants(p types.SpendPolicy, height uint64, rng *rand.Rand, stranger types.PublicKey) []c03PolicyVariant {
+	var out []c03PolicyVariant
+	switch t := p.Type.(type) {
+	case types.PolicyTypeUnlockConditions:
+		for _, v := range c03UCVariants(types.UnlockConditions(t), height+1, rng, stranger) {
+			out = append(out, c03PolicyVariant{"uc." + v.field, types.SpendPolicy{Type: types.PolicyTypeUnlockConditions(v.uc)}, false})
+		}
+	case types.PolicyTypeAbove:
+		if uint64(t) > 0 {
+			out = append(out, c03PolicyVariant{"above", types.PolicyAbove(uint64(t) - 1), false}, c03PolicyVariant{"above=0", types.PolicyAbove(0), false})
+		} else {
+			out = append(out, c03PolicyVariant{"above", types.PolicyAbove(1), false})
+		}
+	case types.PolicyTypeAfter:
+		out = append(out, c03PolicyVariant{"after", types.PolicyAfter(time.Time(t).Add(-time.Hour)), false})
+	case types.PolicyTypePublicKey:
+		out = append(out, c03PolicyVariant{"pk", types.PolicyPublicKey(stranger), false})
+		q := types.PublicKey(t)
+		q[rng.Intn(32)] ^= 1 << uint(rng.Intn(8))
+		out = append(out, c03PolicyVariant{"pk-bit", types.PolicyPublicKey(q), false})
+	case types.PolicyTypeHash:
+		h := types.Hash256(t)
+		h[rng.Intn(32)] ^= 1 << uint(rng.Intn(8))
+		out = append(out, c03PolicyVariant{"hash", types.PolicyHash(h), false})
+	case types.PolicyTypeOpaque:
+		a := types.Address(t)
+		a[rng.Intn(32)] ^= 1 << uint(rng.Intn(8))
+		out = append(out, c03PolicyVariant{"opaque", types.SpendPolicy{Type: types.PolicyTypeOpaque(a)}, false})
+	case types.PolicyTypeThreshold:
+		with := func(i int, sub types.SpendPolicy) types.SpendPolicy {
+			of := append([]types.SpendPolicy(nil), t.Of...)
+			of[i] = sub
+			return types.PolicyThreshold(t.N, of)
+		}
+		out = append(out, c03PolicyVariant{"thresh.n+1", types.PolicyThreshold(t.N+1, t.Of), false})
+		if t.N > 0 {
+			out = append(out, c03PolicyVariant{"thresh.n-1", types.PolicyThreshold(t.N-1, t.Of), false})
+		}
+		if len(t.Of) > 1 {
+			of := append([]types.SpendPolicy(nil), t.Of...)
+			of[0], of[1] = of[1], of[0]
+			if types.PolicyThreshold(t.N, of).Address() != p.Address() || true {
+				out = append(out, c03PolicyVariant{"thresh.of#reorder", types.PolicyThreshold(t.N, of), false})
+			}
+			out = append(out, c03PolicyVariant{"thresh.of#drop", types.PolicyThreshold(t.N, t.Of[:len(t.Of)-1]), false})
+		}
+		out = append(out, c03PolicyVariant{"thresh.of#append", types.PolicyThreshold(t.N, append(append([]types.SpendPolicy(nil), t.Of...), types.PolicyAbove(0))), false})
+		for i, sub := range t.Of {
+			if _, isOpaque := sub.Type.(types.PolicyTypeOpaque); !isOpaque {
+				out = append(out, c03PolicyVariant{"thresh.of.opaque-for-revealed", with(i, types.PolicyOpaque(sub)), true})
+				out = append(out, c03PolicyVariant{"thresh.of.replaced", with(i, types.PolicyAbove(0)), false})
+			}
+			for _, v := range c03PolicyVariants(sub, height, rng, stranger) {
+				out = append(out, c03PolicyVariant{"thresh.of." + v.field, with(i, v.p), v.opaque})
+			}
+		}
+	}
+	return out
+}
+
+// c03ResignV1Same re-signs a v1 transaction whose revealed unlock conditions were edited, with the SAME keys that
+// signed the original (recipes looked up before the edit): whole-transaction signatures by every original key that
+// still appears in the edited conditions, at its new index, at most SignaturesRequired of them.
+func c03ResignV1Same(cs consensus.State, txn *types.Transaction, recipes map[types.Hash256]*chain.Recipe) {
+	txn.Signatures = nil
+	sign := func(parent types.Hash256, uc types.UnlockConditions) {
+		r := recipes[parent]
+		if r == nil {
+			return
+		}
+		n := uint64(0)
+		for _, k := range r.Keys {
+			pk := k.PublicKey()
+			for idx, uk := range uc.PublicKeys {
+				if n < uc.SignaturesRequired && bytes.Equal(uk.Key, pk[:]) {
+					txn.Signatures = append(txn.Signatures, types.TransactionSignature{ParentID: parent, PublicKeyIndex: uint64(idx), CoveredFields: types.CoveredFields{WholeTransaction: true}})
+					n++
+					break
+				}
+			}
+		}
+		if r.Kind == "ucalien" { // any bytes pass for a key of an unknown algorithm
+			for idx := range uc.PublicKeys {
+				if n < uc.SignaturesRequired && uc.PublicKeys[idx].Algorithm != types.SpecifierEd25519 {
+					txn.Signatures = append(txn.Signatures, types.TransactionSignature{ParentID: parent, PublicKeyIndex: uint64(idx), CoveredFields: types.CoveredFields{WholeTransaction: true}})
+					n++
+				}
+			}
+		}
+	}
+	for _, in := range txn.SiacoinInputs {
+		sign(types.Hash256(in.ParentID), in.UnlockConditions)
+	}
+	for _, in := range txn.SiafundInputs {
+		sign(types.Hash256(in.ParentID), in.UnlockConditions)
+	}
+	for _, rv := range txn.FileContractRevisions {
+		sign(types.Hash256(rv.ParentID), rv.UnlockConditions)
+	}
+	for i := range txn.Signatures {
+		sg := &txn.Signatures[i]
+		r := recipes[sg.ParentID]
+		var key types.PrivateKey
+		for _, in := range txn.SiacoinInputs {
+			if types.Hash256(in.ParentID) == sg.ParentID && int(sg.PublicKeyIndex) < len(in.UnlockConditions.PublicKeys) {
+				key = c03KeyFor(r, in.UnlockConditions.PublicKeys[sg.PublicKeyIndex])
+			}
+		}
+		for _, in := range txn.SiafundInputs {
+			if types.Hash256(in.ParentID) == sg.ParentID && int(sg.PublicKeyIndex) < len(in.UnlockConditions.PublicKeys) {
+				key = c03KeyFor(r, in.UnlockConditions.PublicKeys[sg.PublicKeyIndex])
+			}
+		}
+		for _, rv := range txn.FileContractRevisions {
+			if types.Hash256(rv.ParentID) == sg.ParentID && int(sg.PublicKeyIndex) < len(rv.UnlockConditions.PublicKeys) {
+				key = c03KeyFor(r, rv.UnlockConditions.PublicKeys[sg.PublicKeyIndex])
+			}
+		}
+		if key == nil && r != nil && len(r.Keys) > 0 {
+			key = r.Keys[0]
+		}
+		if key != nil {
+			sig := key.SignHash(cs.WholeSigHash(*txn, sg.ParentID, sg.PublicKeyIndex, 0, nil))
+			sg.Signature = sig[:]
+		}
+	}
+}
+
+func c03KeyFor(r *chain.Recipe, uk types.UnlockKey) types.PrivateKey {
+	if r == nil {
+		return nil
+	}
+	for _, k := range r.Keys {
+		pk := k.PublicKey()
+		if bytes.Equal(uk.Key, pk[:]) {
+			return k
+		}
+	}
+	return nil
+}
+
+// revealedPolicyMutants: for every input of the block (v1 unlock conditions of siacoin / siafund inputs and
+// revisions; v2 satisfied policies) every single-field variant of what is REVEALED — without re-signing and, for
+// v1 (whose signatures cover the revealed conditions), re-signed by the same keys. kind =
+// "revealed-policy:<recipe kind>:<field>[:resigned]"; opaque-for-revealed substitutions "revealed-policy-opaque:…".
+func (x *c03Ctx) revealedPolicyMutants(s *chain.Sim, b types.Block, supp consensus.V1BlockSupplement, miner types.Address, max int) []mutant {
+	var out []mutant
+	rng := x.rng
+	child := s.ChildHeight()
+	stranger := c03Attacker(s, rng).Keys[0].PublicKey()
+	kindOf := func(a types.Address) string {
+		if r := s.RecipeFor(a); r != nil {
+			return r.Kind
+		}
+		return "unknown"
+	}
+	add := func(kind string, edit func(mb *types.Block) bool) {
+		mb, ms := chain.DeepCopyBlock(b), chain.CopySupp(supp)
+		mb.Timestamp = b.Timestamp
+		if !edit(&mb) {
+			return
+		}
+		s.Seal(&mb, miner)
+		out = append(out, mutant{kind, mb, ms})
+	}
+	// the address the parent really commits to (elements of the store; zero for parents created in this block)
+	committed := func(id types.Hash256) types.Address {
+		if e, ok := s.St.SC[types.SiacoinOutputID(id)]; ok {
+			return e.SiacoinOutput.Address
+		}
+		if e, ok := s.St.SF[types.SiafundOutputID(id)]; ok {
+			return e.SiafundOutput.Address
+		}
+		if e, ok := s.St.FC[types.FileContractID(id)]; ok {
+			return e.FileContract.UnlockHash
+		}
+		return types.Address{}
+	}
+	for i, t := range b.Transactions {
+		i := i
+		recipes := map[types.Hash256]*chain.Recipe{}
+		type slot struct {
+			parent types.Hash256
+			uc     types.UnlockConditions
+			set    func(c *types.Transaction, u types.UnlockConditions)
+			addr   types.Address
+		}
+		var slots []slot
+		for k, in := range t.SiacoinInputs {
+			k := k
+			a := c03UnlockHash(in.UnlockConditions)
+			recipes[types.Hash256(in.ParentID)] = s.RecipeFor(in.UnlockConditions.UnlockHash())
+			slots = append(slots, slot{types.Hash256(in.ParentID), in.UnlockConditions, func(c *types.Transaction, u types.UnlockConditions) { c.SiacoinInputs[k].UnlockConditions = u }, a})
+		}
+		for k, in := range t.SiafundInputs {
+			k := k
+			recipes[types.Hash256(in.ParentID)] = s.RecipeFor(in.UnlockConditions.UnlockHash())
+			slots = append(slots, slot{types.Hash256(in.ParentID), in.UnlockConditions, func(c *types.Transaction, u types.UnlockConditions) { c.SiafundInputs[k].UnlockConditions = u }, c03UnlockHash(in.UnlockConditions)})
+		}
+		for k, rv := range t.FileContractRevisions {
+			k := k
+			recipes[types.Hash256(rv.ParentID)] = s.RecipeFor(rv.UnlockConditions.UnlockHash())
+			slots = append(slots, slot{types.Hash256(rv.ParentID), rv.UnlockConditions, func(c *types.Transaction, u types.UnlockConditions) { c.FileContractRevisions[k].UnlockConditions = u }, c03UnlockHash(rv.UnlockConditions)})
+		}
+		for _, sl := range slots {
+			sl := sl
+			rk := "unknown"
+			if r := recipes[sl.parent]; r != nil {
+				rk = r.Kind
+			}
+			for _, v := range c03UCVariants(sl.uc, child, rng, stranger) {
+				v := v
+				if h := c03UnlockHash(v.uc); h == s.Net.HardforkDevAddr.NewAddress || h == committed(sl.parent) {
+					// the developer-address override: the conditions of the NEW address legitimately spend siafunds at the OLD
+					// one — and a variant of them may BE the conditions the parent really commits to
+					continue
+				}
+				add("revealed-policy:"+rk+":"+v.field, func(mb *types.Block) bool { sl.set(&mb.Transactions[i], v.uc); return true })
+				add("revealed-policy:"+rk+":"+v.field+":resigned", func(mb *types.Block) bool {
+					sl.set(&mb.Transactions[i], v.uc)
+					c03ResignV1Same(s.Tip, &mb.Transactions[i], recipes)
+					return true
+				})
+			}
+		}
+	}
+	for i, t := range b.V2Transactions() {
+		i := i
+		for k, in := range t.SiacoinInputs {
+			k := k
+			rk := kindOf(in.Parent.SiacoinOutput.Address)
+			for _, v := range c03PolicyVariants(in.SatisfiedPolicy.Policy, s.Tip.Index.Height, rng, stranger) {
+				v := v
+				pre := "revealed-policy:"
+				if v.opaque {
+					pre = "revealed-policy-opaque:"
+				}
+				add(pre+rk+":"+v.field, func(mb *types.Block) bool { mb.V2.Transactions[i].SiacoinInputs[k].SatisfiedPolicy.Policy = v.p; return true })
+			}
+		}
+		for k, in := range t.SiafundInputs {
+			k := k
+			rk := kindOf(in.Parent.SiafundOutput.Address)
+			for _, v := range c03PolicyVariants(in.SatisfiedPolicy.Policy, s.Tip.Index.Height, rng, stranger) {
+				v := v
+				pre := "revealed-policy:"
+				if v.opaque {
+					pre = "revealed-policy-opaque:"
+				}
+				add(pre+rk+":"+v.field, func(mb *types.Block) bool { mb.V2.Transactions[i].SiafundInputs[k].SatisfiedPolicy.Policy = v.p; return true })
+			}
+		}
+	}
+	rng.Shuffle(len(out), func(a, b int) { out[a], out[b] = out[b], out[a] })
+	if max > 0 && len(out) > max {
+		out = out[:max]
+	}
+	return out
+}
+
 // c03InBlockRotation builds a block [key-rotating revision of X ; renewal of X] in which the
 // renewal is signed by (a) the pre-block keys, (b) the keys as they stand after the revision.
 func c03InBlockRotation(s *chain.Sim, ts time.Time, miner types.Address) (pre, post *mutant) {
@@ -1698,11 +2105,51 @@ func runC03(c *fw.Ctx) {
 				}
 				ms = keep
 			}
+			if !replaying || height == only.Replay.Height {
+				rv := x.revealedPolicyMutants(s, p.Block, p.Supp, p.Miner, c.Budget(24, 0))
+				if replaying {
+					var keep []mutant
+					for _, m := range rv {
+						if m.kind == only.Replay.Tamper {
+							keep = append(keep, m)
+						}
+					}
+					rv = keep
+				}
+				ms = append(ms, rv...)
+				// the address of revealed unlock conditions is the protocol's Merkle root, whatever shortcut the code takes
+				hashOracle := func(uc types.UnlockConditions, got types.Address, where string) {
+					res.Count("unlock-hash-oracle")
+					if want := c03UnlockHash(uc); got != want {
+						kind := "unknown"
+						if r := s.RecipeFor(got); r != nil {
+							kind = r.Kind
+						}
+						res.Violate(fw.Violation{Key: "c03-revealed-conditions-hash-mismatch:" + kind, What: "the address core derives from revealed unlock conditions (" + where + ") is not the Merkle root of timelock | keys | signatures required",
+							Replay: map[string]any{"mode": mode, "seed": seed, "height": height, "unlock_conditions": fw.Hex(chain.Encode(uc)), "core": fmt.Sprint(got), "protocol": fmt.Sprint(want)}, Expected: fmt.Sprint(want), Observed: fmt.Sprint(got)})
+					}
+				}
+				for _, t := range p.Block.Transactions {
+					for _, in := range t.SiacoinInputs {
+						hashOracle(in.UnlockConditions, in.UnlockConditions.UnlockHash(), "UnlockConditions.UnlockHash")
+					}
+					for _, in := range t.SiafundInputs {
+						hashOracle(in.UnlockConditions, in.UnlockConditions.UnlockHash(), "UnlockConditions.UnlockHash")
+					}
+				}
+				for _, t := range p.Block.V2Transactions() {
+					for _, in := range t.SiacoinInputs {
+						if uc, ok := in.SatisfiedPolicy.Policy.Type.(types.PolicyTypeUnlockConditions); ok {
+							hashOracle(types.UnlockConditions(uc), in.SatisfiedPolicy.Policy.Address(), "SpendPolicy.Address")
+						}
+					}
+				}
+			}
 			x.rng.Shuffle(len(ms), func(a, b int) { ms[a], ms[b] = ms[b], ms[a] })
 			{ // same-block spends are rare: their mutants are never sampled away
 				var first, rest []mutant
 				for _, m := range ms {
-					if strings.HasPrefix(m.kind, "v2-ephemeral") {
+					if strings.HasPrefix(m.kind, "v2-ephemeral") || strings.HasPrefix(m.kind, "revealed-policy") {
 						first = append(first, m)
 					} else {
 						rest = append(rest, m)
@@ -1778,20 +2225,25 @@ func runC03(c *fw.Ctx) {
 			}
 			// two outputs paid to ONE address by the previous (inserted) block, spent together: honest spends must be
 			// accepted; a corrupted witness on the second input only (or the first only) must be rejected
-			if pending != nil {
+			if pending != nil && pending.tries < 6 && !s.Spendable(pending.r.Addr, s.V2Allowed()) && !(pending.r.UC != nil && !s.V1Forbidden() && s.Spendable(pending.r.Addr, false)) {
+				pending.tries++ // a lock (timelock / above / after) has not passed yet: try on a later block
+			} else if pending != nil {
 				ctl, att := c03SecondInput(s, x.rng, pending, p.Block.Timestamp, p.Miner)
 				res.Count("same-address:" + pending.kind)
+				pkind := pending.kind
 				pending = nil
 				if !replaying || height == only.Replay.Height {
 					for _, m := range ctl {
 						err := consensus.ValidateBlock(s.Tip, m.block, m.supp)
-						res.Eval(fmt.Sprintf("%s/%d/%d/%s", mode, seed, height, m.kind), true)
+						res.Eval(fmt.Sprintf("%s/%d/%d/%s/%s", mode, seed, height, pkind, m.kind), true)
 						if err != nil {
-							res.Count("control-rejected:" + m.kind)
-							res.Violate(fw.Violation{Key: "c03-untampered-rejected:" + m.kind, What: "an honest transaction spending two outputs of one address was rejected: " + err.Error(),
-								Replay: map[string]any{"mode": mode, "seed": seed, "height": height, "tamper": m.kind, "block": fw.Hex(chain.Encode(types.V2Block(m.block)))}, Expected: "accepted", Observed: "rejected"})
+							res.Count("control-rejected:" + pkind + ":" + m.kind)
+							res.Violate(fw.Violation{Key: "c03-untampered-rejected:" + pkind, What: "an honest transaction spending outputs paid to the protocol address of a '" + pkind + "' recipe was rejected (" + m.kind + "): " + err.Error(),
+								Replay: map[string]any{"mode": mode, "seed": seed, "height": height, "tamper": m.kind, "recipe": pkind, "block": fw.Hex(chain.Encode(types.V2Block(m.block)))}, Expected: "accepted", Observed: "rejected"})
 						} else {
-							res.Count("control-accepted:" + m.kind)
+							res.Count("control-accepted:" + pkind + ":" + m.kind)
+							// the revealed conditions / policy of the honest spend, field by field
+							att = append(att, x.revealedPolicyMutants(s, m.block, m.supp, p.Miner, c.Budget(40, 0))...)
 						}
 					}
 					if replaying {
@@ -1808,6 +2260,14 @@ func runC03(c *fw.Ctx) {
 			}
 			legacyWindow := height < s.Net.HardforkV2.EphemeralOutputHeight
 			for _, m := range ms {
+				if strings.HasPrefix(m.kind, "revealed-policy-opaque:") {
+					// a revealed sub-policy replaced by its opaque form keeps the address by design: the block then stands or falls
+					// with the witnesses alone: recorded, not judged
+					var err error
+					panicked, _ := fw.Recover(func() { err = consensus.ValidateBlock(s.Tip, m.block, m.supp) })
+					res.Count(fmt.Sprintf("opaque-for-revealed:accepted=%v,panicked=%v", err == nil && !panicked, panicked))
+					continue
+				}
 				if legacyWindow && strings.HasPrefix(m.kind, "v2-ephemeral") {
 					// below EphemeralOutputHeight the claimed ephemeral parent is not compared (documented legacy window): recorded, not judged
 					var err error
